@@ -2,7 +2,8 @@
 """Self-test of the checks (development aid, not a registered check): applies each
 mutants/<name>/patch.diff to a scratch copy of /repo (outside /repo and /verif, removed
 afterwards) and asserts that the named property check fires (VIOLATION naming `key`) or stays
-silent.   usage: tools/selftest.py [name ...]"""
+silent. The independently seeded changes under seeded/<id>/ are run the same way (name
+`seed:<id>`).   usage: tools/selftest.py [name | seed:<id> ...]"""
 import json
 import os
 import shutil
@@ -15,7 +16,8 @@ REPO = "/repo"
 
 
 def run_one(name):
-    d = os.path.join(VERIF, "mutants", name)
+    d = os.path.join(VERIF, "seeded" if name.startswith("seed:") else "mutants",
+                     name.split(":", 1)[-1])
     meta = json.load(open(os.path.join(d, "meta.json")))
     scratch = tempfile.mkdtemp(prefix="fir-mut-")
     evdir = tempfile.mkdtemp(prefix="fir-mut-ev-")
@@ -49,10 +51,14 @@ def run_one(name):
 
 
 def main():
-    names = sys.argv[1:] or sorted(os.listdir(os.path.join(VERIF, "mutants")))
+    names = sys.argv[1:] or (sorted(os.listdir(os.path.join(VERIF, "mutants"))) +
+                             ["seed:" + s for s in sorted(os.listdir(os.path.join(VERIF, "seeded")))
+                              if os.path.isdir(os.path.join(VERIF, "seeded", s))])
     bad = 0
     for n in names:
-        if not os.path.exists(os.path.join(VERIF, "mutants", n, "meta.json")):
+        base = os.path.join(VERIF, "seeded", n[5:]) if n.startswith("seed:") else \
+            os.path.join(VERIF, "mutants", n)
+        if not os.path.exists(os.path.join(base, "meta.json")):
             continue
         for (prop, exp, ok, rc, keys) in run_one(n):
             print("%-34s %-4s expect=%-6s %s rc=%d %s" % (n, prop, exp, "OK " if ok else "FAIL",
